@@ -217,9 +217,10 @@ func (m *streeModel) ruleDescents(c *Ctx) {
 			return found
 		}
 		// the sign of the comparison known at a block: subset of {neg, zero, pos} as bits 1, 2, 4
+		var extraCmps []Cmp
 		signAt := func(b *ssa.BasicBlock) int {
 			s := 7
-			for _, cm := range cmpsAt(b) {
+			for _, cm := range append(cmpsAt(b), extraCmps...) {
 				x, y, op := cm.X, cm.Y, cm.Op
 				if y == ssa.Value(cmpCall) {
 					x, y = y, x
@@ -288,6 +289,81 @@ func (m *streeModel) ruleDescents(c *Ctx) {
 			judged[key] = true
 			c.judge(sameField(a.fld, want), "R-ORIENT", key, a.in.Pos(), "descends into ."+a.fld.Name(), fmt.Sprintf("when %s the descent goes into .%s, but the in-order walk puts smaller keys under .%s: the search and the iteration disagree about the order", desc, a.fld.Name(), m.small.Name()))
 		}
+		// a pointer that selects the link (child := &n.left; if cmp > 0 { child = &n.right }) and is then
+		// descended through (*child handed to the recursion, or stored): each incoming edge is a descent
+		// into its link, under the sign known on that edge
+		allInstrs(host, func(in ssa.Instruction) {
+			ph, ok := in.(*ssa.Phi)
+			if !ok {
+				return
+			}
+			var fas []*ssa.FieldAddr
+			for _, e := range ph.Edges {
+				fa, ok := e.(*ssa.FieldAddr)
+				if !ok || fa.X != nodeVal {
+					return
+				}
+				if _, f := fieldVarOf(fa); !sameField(f, m.leftF) && !sameField(f, m.rightF) {
+					return
+				}
+				fas = append(fas, fa)
+			}
+			if len(fas) != len(ph.Edges) || len(fas) == 0 {
+				return
+			}
+			used := false
+			for _, r := range referrersOf(ph) {
+				switch x := r.(type) {
+				case *ssa.Store:
+					if x.Addr == ssa.Value(ph) {
+						used = true
+					}
+				case *ssa.UnOp:
+					for _, r2 := range referrersOf(x) {
+						if call, ok := r2.(*ssa.Call); ok {
+							if cal := staticCallee(&call.Call); cal != nil && origin(cal) == origin(host) {
+								used = true
+							}
+						}
+					}
+				}
+			}
+			if !used {
+				return
+			}
+			for i, fa := range fas {
+				pred := ph.Block().Preds[i]
+				extraCmps = nil
+				if iff, ok := pred.Instrs[len(pred.Instrs)-1].(*ssa.If); ok {
+					idx := 0
+					if pred.Succs[1] == ph.Block() {
+						idx = 1
+					}
+					if cm, ok := edgeCmp(iff, idx); ok {
+						extraCmps = []Cmp{cm}
+					}
+				}
+				s := signAt(pred)
+				extraCmps = nil
+				_, fld := fieldVarOf(fa)
+				var want *types.Var
+				var desc string
+				switch {
+				case s&4 == 0 && s&1 != 0:
+					want, desc = m.small, "key < node"
+				case s&1 == 0 && s&4 != 0:
+					want, desc = m.large, "key > node"
+				default:
+					continue
+				}
+				key := fmt.Sprintf("%s:%s", name, desc)
+				if judged[key] && sameField(fld, want) {
+					continue
+				}
+				judged[key] = true
+				c.judge(sameField(fld, want), "R-ORIENT", key, fa.Pos(), "descends into ."+fld.Name()+" (through a link pointer)", fmt.Sprintf("when %s the descent goes into .%s, but the in-order walk puts smaller keys under .%s: the search and the iteration disagree about the order", desc, fld.Name(), m.small.Name()))
+			}
+		})
 		for _, desc := range []string{"key < node", "key > node"} {
 			key := fmt.Sprintf("%s:%s", name, desc)
 			if !judged[key] {
